@@ -92,11 +92,7 @@ func runHistory(r *core.Run, cid string, L int) {
 			// are not the client's to touch
 			a, b := s.RandNodePair()
 			before := map[string]core.KV{"acks/": a.DumpPrefix(a.Ctx(), "xibc", []byte("acks/")), "commitments/": a.DumpPrefix(a.Ctx(), "xibc", []byte("commitments/")), "receipts/": a.DumpPrefix(a.Ctx(), "xibc", []byte("receipts/"))}
-			gov := s.ToggleRoundTrip
-			if rng.Intn(2) == 0 {
-				gov = s.UpgradeClient
-			}
-			if err := gov(a, b); err != nil {
+			if err := s.GovClientOp(a, b); err != nil {
 				r.Inconclusive("%s: client toggle / upgrade failed: %v", cid, err)
 				return
 			}
@@ -334,6 +330,15 @@ func (m *mon) ackUnderChangedRegistry() {
 	if err != nil {
 		return
 	}
+	if s.Rng.Intn(2) == 0 {
+		// the address the acknowledgement names also appears under ANOTHER relayer - for another counterparty: the fee still
+		// belongs to the relayer that has it for THIS counterparty
+		s.CrossRelayers(p.SrcN, p.Dst)
+		m.r.Count("acks_under_crossed_registry", 1)
+		m.deliverAck(p, msg, rel, "honest-under-crossed-registry", false)
+		s.RestoreRelayers(p.SrcN)
+		return
+	}
 	s.ScrambleRelayers(p.SrcN, p.Dst)
 	m.r.Count("acks_under_changed_registry", 1)
 	m.deliverAck(p, msg, rel, "honest-while-relayer-unregistered", false)
@@ -355,6 +360,15 @@ func (m *mon) honestAck() {
 	}
 	msg, err := s.AckMsg(p, p.AckWritten, ph, rel)
 	if err != nil {
+		return
+	}
+	if s.Rng.Intn(3) == 0 {
+		// the address the acknowledgement names also appears under ANOTHER relayer - for another counterparty: the fee still
+		// belongs to the relayer that has it for THIS counterparty
+		s.CrossRelayers(p.SrcN, p.Dst)
+		m.r.Count("acks_under_crossed_registry", 1)
+		m.deliverAck(p, msg, rel, "honest-under-crossed-registry", false)
+		s.RestoreRelayers(p.SrcN)
 		return
 	}
 	m.deliverAck(p, msg, rel, "honest", false)
